@@ -113,7 +113,10 @@ def run_all(tier, seed):
             buf = ctx.new_buffer(r.choice([64, 256]))
             objs = []
             gen = 0
+            stale = False
             for j in range(n_obj):
+                if stale:
+                    break
                 if r.random() < 0.3:
                     buf.allocate(r.randrange(1, 30))
                 o = KS(a=r.randint(-2**62, 2**62), b=float(j) + 0.5, c=[r.randrange(-128, 128) for _ in range(r.randrange(0, 9))], _buffer=buf)
@@ -126,11 +129,14 @@ def run_all(tier, seed):
                     c1 = dict(c0, offset=int(o2._offset), capacity=buf.capacity, generation=gen)
                     try:
                         a = int(K.addr_obj(obj=o2))
-                        w0 = int(K.word_obj(obj=o2, k=1))
-                        evals += 2
+                        evals += 1
                         tags["xobj.ptr"] += 1
                         if a - base != int(o2._offset):
                             fail("xobj-pointer", f"{cname}: object at offset {int(o2._offset)} of a buffer grown {gen} times was delivered as address base+{a - base}", c1)
+                            stale = True
+                            break           # the pointer is wrong: reading or writing through it could touch freed memory
+                        w0 = int(K.word_obj(obj=o2, k=1))
+                        evals += 1
                         if w0 != int(o2.a):
                             fail("xobj-bytes", f"{cname}: the kernel reads {w0} in the object's second word, Python reads a={int(o2.a)}", c1)
                         newa = r.randint(-2**62, 2**62)
@@ -181,12 +187,14 @@ def run_all(tier, seed):
                     c1 = dict(c0, xarray=Arr.__name__, offset=int(xa._offset))
                     try:
                         a = int(getattr(K, f"addr_{name}")(p=xa))
-                        f0 = getattr(K, f"first_{name}")(p=xa)
-                        evals += 2
+                        evals += 1
                         tags["xarray." + shape_kind] += 1
                         want = int(xa._offset) + int(Arr._data_offset)
                         if a - base != want:
                             fail("xarray-pointer", f"{cname}: {Arr.__name__} at {int(xa._offset)}: delivered base+{a - base}, its first element is at base+{want}", c1)
+                            continue
+                        f0 = getattr(K, f"first_{name}")(p=xa)
+                        evals += 1
                         if float(f0) != 1.0:
                             fail("xarray-first", f"{cname}: {Arr.__name__}: kernel reads {f0!r} as p[0], the first item is 1", c1)
                     except Exception as ex:
@@ -195,6 +203,8 @@ def run_all(tier, seed):
                     expect.append(f"ptr {gen} {int(xa._offset) + int(Arr._data_offset)} {cty}*")
                     ctxs.append(c1)
             # ---------------- refusals and the mixed call
+            if stale:
+                continue
             o = objs[0]
             arr = np.array([1.0, 2.0, 3.0])
             good = dict(obj=o, x=0.25, n=3, arr=arr)
